@@ -137,6 +137,20 @@ var positions = []position{
 		}
 		return "{css " + s + "}", s, true
 	}},
+	{"css-name-after-var", "css-name", true, func(s string, g *gen) (string, string, bool) {
+		// the suffix after a component expression: the last comma separates the two
+		if s == "" || hasAny(s, "{},\n\r\x00") || strings.TrimSpace(s) != s {
+			return "", "", false
+		}
+		g.use("cx", "pre")
+		return "{css $cx, " + s + "}", "pre-" + s, true
+	}},
+	{"css-name-after-literal", "css-name", true, func(s string, g *gen) (string, string, bool) {
+		if s == "" || hasAny(s, "{},\n\r\x00") || strings.TrimSpace(s) != s {
+			return "", "", false
+		}
+		return "{css 'lit', " + s + "}", "lit-" + s, true
+	}},
 	{"css-prefix", "css-prefix", true, func(s string, g *gen) (string, string, bool) {
 		return "{css " + qAuto(s, "{}\n\r") + ", suf-fix}", s + "-suf-fix", true
 	}},
